@@ -197,7 +197,9 @@ Gen1(env, ctr, fns, ctx) ==
   ELSE IF c = 15 /\ VarsOf(env, TArr(TInt)) # {} THEN
      LET a == V(env[Pick(VarsOf(env, TArr(TInt)))].n)  w == Pick(1..4) IN
      [ss |-> IF w = 1 THEN <<ExprS(MCall(a, "push", <<GenE(TInt, env, fns, 2)>>))>>
-             ELSE IF w = 2 THEN <<Assign([k |-> "idx", a |-> a, i |-> GenE(TInt, env, fns, 0)], Pick({"=", "+="}), GenE(TInt, Frozen(env), fns, 2))>>
+             \* the index of an assignment target may be any effect-free expression (also a block with its own `let`)
+             ELSE IF w = 2 THEN <<Assign([k |-> "idx", a |-> a, i |-> GenE(TInt, Frozen(env), fns, IF Chance(1, 3) THEN 2 ELSE 0)],
+                                         Pick({"=", "+="}), GenE(TInt, Frozen(env), fns, 2))>>
              ELSE IF w = 3 THEN <<If(Bin(">", MCall(a, "len", <<>>), I(0)), <<Let(Name("pv", ctr), MCall(a, "pop", <<>>))>>, <<>>)>>
              ELSE <<PrintS(a)>>,
       env |-> env, ctr |-> ctr]
